@@ -12,7 +12,7 @@ from ..model import qual
 from ..symx import Expander, ref_eval, TupleV
 from ..anf import R
 from .. import anf
-from .common import formula_ob, struct_ob, guard, last_return, rel, U
+from .common import formula_ob, struct_ob, guard, last_return, rel, U, purity_obligations
 from ..report import AnalysisError
 
 REL = "inference/likelihoods.py"
@@ -25,7 +25,7 @@ REFERENCE = {
                                     "- log(s*sqrt(3)/pi)"),
 }
 FLOORS = {"density-form": 3, "gradient-is-derivative": 3, "jacobian-contraction": 3,
-          "negations": 6, "wiring": 6, "ctor-wiring": 3}
+          "negations": 6, "wiring": 6, "ctor-wiring": 3, "arguments-not-mutated": 15}
 
 ARRAYS = {"y_data", "uncertainties", "predictions"}
 
@@ -136,6 +136,8 @@ def run(prog, tier):
         v_cg = expand(cgrad)
         obs.append(formula_ob("negations", qual(cb4, cgrad) + f"[{ci.name}]", v_cg, -v_grad, REL, cgrad.lineno,
                               what="cost_gradient = -gradient"))
+
+    obs.extend(purity_obligations(prog, "arguments-not-mutated", [base] + subclasses))
 
     meta = {
         "explanation": "AST def-use expansion of each likelihood's value / gradient expression into an "
